@@ -445,9 +445,10 @@ Definition both_atoms_zero_divisor (a b : val) : bool :=
 Definition m_add (a b : val) : res := np2 (fuel2 a b) ObjRec sc_add sc_add a b.
 Definition m_sub (a b : val) : res := np2 (fuel2 a b) ObjRec sc_sub sc_sub a b.
 Definition m_mul (a b : val) : res := np2 (fuel2 a b) ObjRec sc_mul sc_mul a b.
-Definition m_min (a b : val) : res := np2 (fuel2 a b) ObjCmp sc_min sc_min a b.
-Definition m_max (a b : val) : res := np2 (fuel2 a b) ObjCmp sc_max sc_max a b.
-Definition m_rem (a b : val) : res := np2 (fuel2 a b) ObjNone sc_fmod sc_fmod a b.
+(* since the fix: commit these three go through vec_fn2 like the comparison verbs *)
+Definition m_min (a b : val) : res := vec2 (fuel2 a b) (leaf2n sc_min) a b.
+Definition m_max (a b : val) : res := vec2 (fuel2 a b) (leaf2n sc_max) a b.
+Definition m_rem (a b : val) : res := vec2 (fuel2 a b) (leaf2n sc_fmod) a b.
 Definition m_div (a b : val) : res :=
   if both_atoms_zero_divisor a b then Ok VU else np2 (fuel2 a b) ObjRec sc_div sc_div_py a b.
 Definition m_idiv (a b : val) : res :=
@@ -461,9 +462,30 @@ Definition sc_neg (a : val) : res :=
   match a with VI x => Ok (VI (- x)) | VR x => Ok (VR (SFopp x)) | _ => Unmod end.
 Definition m_negate (a : val) : res := vec1 (S (depth a)) (leaf1 sc_neg) a.
 
+(* floor_to_int on one number: an integer when the floored value is inside the int64 range, otherwise the floored real *)
+Definition floor_fits (v : val) : bool :=
+  match v with
+  | VI _ => true
+  | VR r => match rfloor_exact r with Some z => (- two63 <=? z) && (z <? two63) | None => false end
+  | _ => false
+  end.
 Definition sc_floor (a : val) : res :=
-  match a with VI x => Ok (VI x) | VR x => Ok (VI (rfloor x)) | _ => Unmod end.
-Definition m_floor (a : val) : res := vec1 (S (depth a)) (leaf1 sc_floor) a.
+  match a with
+  | VI x => Ok (VI x)
+  | VR r => match rfloor_exact r with
+            | Some z => if (- two63 <=? z) && (z <? two63) then Ok (VI z) else Ok (VR r)
+            | None => Ok (VR r)
+            end
+  | _ => Unmod
+  end.
+Fixpoint forall_leaves (p : val -> bool) (a : val) : bool :=
+  match a with VL l => forallb (forall_leaves p) l | _ => p a end.
+(* on a numeric array the test `np.all(abs(result) < 2**63)` is taken once for the whole array: one element beyond
+   the range keeps every element real (np.floor of each) — abstractly the homogenisation of the element-wise result *)
+Definition floor_leaf (a : val) : res :=
+  if forall_leaves floor_fits a then leaf1 sc_floor a
+  else bind (leaf1 sc_floor a) (fun v => Ok (norm v)).
+Definition m_floor (a : val) : res := vec1 (S (depth a)) floor_leaf a.
 
 Definition sc_recip (a : val) : res :=
   match toR a with Some x => Ok (VR (rdiv (rofZ 1) x)) | None => Unmod end.
@@ -475,7 +497,7 @@ Definition m_recip (a : val) : res :=
   end.
 
 Definition sc_char (a : val) : res :=
-  match a with VI x => if (0 <=? x) && (x <? 1114112) then Ok (VC x) else Err | VL _ => Err | _ => Unmod end.
+  match a with VI x => if (0 <=? x) && (x <? 1114112) then Ok (VC x) else Err | VL _ => Ok a (* an empty list stays *) | _ => Unmod end.
 (* rec_fn: `_is_list` — a non-empty array recurses (results through kg_asarray), anything else is given to f *)
 Fixpoint rec1 (fuel : nat) (f : val -> res) (a : val) : res :=
   match fuel with
@@ -507,11 +529,11 @@ Definition m_size (a : val) : res :=
   | VU => Err
   end.
 
-(* a if empty or not iterable else a[0]; a[0] of a Python str is a str of length 1, not a KGChar *)
+(* a if empty or not iterable else a[0] (a character for a string) *)
 Definition m_first (a : val) : res :=
   match a with
   | VL (x :: _) => Ok x
-  | VS (c :: _) => Ok (VS [c])
+  | VS (c :: _) => Ok (VC c)      (* KGChar(a[0]) since the fix: commit *)
   | _ => Ok a
   end.
 
@@ -547,7 +569,7 @@ Fixpoint expand_from (i : nat) (l : list val) : result (list val) :=
   end.
 Definition m_expand (a : val) : res :=
   match a with
-  | VL [] => Err     (* np.repeat(arange(0), float64 []) cannot cast the repeat counts *)
+  | VL [] => Ok (VL [])
   | VL l => if (npdepth a =? 1)%nat then okl (expand_from 0 l) else Unmod
   | VI _ => okl (expand_from 0 [a])
   | _ => Unmod
@@ -578,12 +600,10 @@ Definition m_take (a b : val) : res :=
   match a, as_members b with
   | VI n, Some (j, l) =>
       let aa := Z.abs n in
-      let size := if j then zlen l else array_size b in
       let len := zlen l in
+      let size := len in       (* len(b): the members are counted (rows of a matrix) since the fix: commit *)
       if size =? 0 then rejoin j l
       else if size <? aa then
-        if (1 <? npdepth b)%nat then Unmod            (* np.tile along the last axis of a matrix *)
-        else
           let t := tile (Z.to_nat (aa / len)) l in
           let r := aa - zlen t in
           let t2 := if 0 <? n then t ++ py_head r t
@@ -922,15 +942,12 @@ Definition m_find (a b : val) : res :=
       match b with
       | VL _ => okl (positions 0 (fun x => kg_equal (fuel2 x b) x b) l)
       | _ =>
-          if (1 <? npdepth a)%nat then Unmod
+          (* a str needle, or a haystack that is an object array / matrix: members compared with kg_equal (fix: commits) *)
+          if is_strlike b || is_obj a || (1 <? npdepth a)%nat
+          then okl (positions 0 (fun x => kg_equal (fuel2 x b) x b) l)
           else okl (positions 0 (fun x => match x with
                                           | VL _ => Unmod
-                                          | _ =>
-                                              match text_of b with
-                                              | Some t =>   (* b goes through a '<U' array and comes back as a plain str *)
-                                                  Ok (match x with VC c => zs_eqb [c] t | VS s => zs_eqb s t | _ => false end)
-                                              | None => match sc_equal x b with Ok (VI 1) => Ok true | Ok _ => Ok false | _ => Unmod end
-                                              end
+                                          | _ => match sc_equal x b with Ok (VI 1) => Ok true | Ok _ => Ok false | _ => Unmod end
                                           end) l)
       end
   | _ => Unmod
@@ -997,7 +1014,7 @@ Definition m_reshape (a b : val) : res :=
       | None => Unmod
       end
   | VI n =>
-      if n =? 0 then (match b' with VL lb => rejoin j lb | _ => Ok b end)
+      if n =? 0 then Ok b      (* identity, before any conversion (fix: commit) *)
       else if n <? 0 then Unmod
       else
         match b' with
@@ -1018,31 +1035,25 @@ Definition m_reshape (a b : val) : res :=
   end.
 
 (* ------------------------------------------------------------------ Shape, Transpose, Not, Grade, Group, Range *)
-(* the shape of `_a(x)`: strings (and the str subclasses KGChar, KGSym) are replaced by np.empty(len), lists recurse,
-   np.asarray of members of different shapes raises ValueError *)
-Fixpoint ashape (v : val) : result (list nat) :=
+(* `_s(x)`: no dimensions for what is not iterable, [len] for a string, the array shape for a numeric array (also an
+   empty one), otherwise the length followed by the common shape of the members, if they all have one *)
+Fixpoint ashape (v : val) : list nat :=
   match v with
   | VL l =>
-      let shapes := (fix go (l : list val) : result (list (list nat)) :=
-                       match l with
-                       | [] => Ok []
-                       | y :: r => bind (ashape y) (fun sh => bind (go r) (fun shs => Ok (sh :: shs)))
-                       end) l in
-      bind shapes (fun shs =>
-        match shs with
-        | [] => Ok [O]
-        | sh :: rest => if forallb (list_eqb Nat.eqb sh) rest then Ok (List.length l :: sh) else Err
-        end)
-  | VS s | VY s => Ok [List.length s]
-  | VC _ => Ok [1%nat]
-  | _ => Ok []
+      match rshape v with
+      | Some sh => sh
+      | None =>
+          let shapes := map ashape l in
+          List.length l :: (if forallb (list_eqb Nat.eqb (hd [] shapes)) shapes then hd [] shapes else [])
+      end
+  | VS s => [List.length s]
+  | _ => []
   end.
 
 Definition m_shape (a : val) : res :=
   match a with
   | VS [] | VL [] => Ok (VI 0)
-  | VS s => Ok (VL [VI (zlen s)])
-  | VL _ => bind (ashape a) (fun sh => Ok (VL (map (fun d => VI (Z.of_nat d)) sh)))
+  | VS _ | VL _ => Ok (VL (map (fun d => VI (Z.of_nat d)) (ashape a)))
   | _ => Ok (VI 0)
   end.
 
@@ -1122,18 +1133,36 @@ Fixpoint dedup_sorted {K} (eqb : K -> K -> bool) (l : list K) : list K :=
   | x :: ((y :: _) as r) => if eqb x y then dedup_sorted eqb r else x :: dedup_sorted eqb r
   | other => other
   end.
+Fixpoint dedup_by {K} (eqb : K -> K -> bool) (seen : list K) (l : list K) : list K :=
+  match l with
+  | [] => []
+  | x :: r => if existsb (eqb x) seen then dedup_by eqb seen r else x :: dedup_by eqb (x :: seen) r
+  end.
+
+(* the scan of eval_monad_groupby: members compared with kg_equal, groups in order of first appearance *)
+Fixpoint ginsert (eq : val -> val -> result bool) (x : val) (i : nat) (acc : list (val * list nat)) : result (list (val * list nat)) :=
+  match acc with
+  | [] => Ok [(x, [i])]
+  | (k, g) :: r => bind (eq k x) (fun e => if e then Ok ((k, g ++ [i]) :: r)
+                                          else bind (ginsert eq x i r) (fun r' => Ok ((k, g) :: r')))
+  end.
+Fixpoint gscan (eq : val -> val -> result bool) (i : nat) (l : list val) (acc : list (val * list nat)) : result (list (val * list nat)) :=
+  match l with
+  | [] => Ok acc
+  | x :: r => bind (ginsert eq x i acc) (fun acc' => gscan eq (S i) r acc')
+  end.
+Definition groups_val (gs : list (val * list nat)) : val :=
+  VL (map (fun kg => VL (map (fun i => VI (Z.of_nat i)) (snd kg))) gs).
+
+(* np.unique with return_index on a sortable 1-D array (order of first appearance since the fix: commit), the scan otherwise *)
 Definition m_group (a : val) : res :=
   match a with
   | VS [] | VL [] => Ok (VL [])
-  | VS s =>
-      let keys := dedup_sorted Z.eqb (map fst (sort_by Z.leb (with_index s))) in
-      Ok (VL (map (fun k => VL (positions_of Z.eqb k 0 s)) keys))
+  | VS s => Ok (VL (map (fun k => VL (positions_of Z.eqb k 0 s)) (dedup_by Z.eqb [] s)))
   | VL l =>
       match rshape a with
-      | Some [_] =>
-          let keys := dedup_sorted num_eqb (map fst (sort_by num_leb (with_index l))) in
-          Ok (VL (map (fun k => VL (positions_of num_eqb k 0 l)) keys))
-      | _ => Unmod
+      | Some [_] => Ok (VL (map (fun k => VL (positions_of num_eqb k 0 l)) (dedup_by num_eqb [] l)))
+      | _ => bind (gscan (fun k x => kg_equal (fuel2 k x) k x) 0 l []) (fun gs => Ok (groups_val gs))
       end
   | _ => Unmod
   end.
@@ -1156,17 +1185,11 @@ Fixpoint val_same (a b : val) {struct a} : bool :=
   | _, _ => false
   end.
 
-Fixpoint dedup_by {K} (eqb : K -> K -> bool) (seen : list K) (l : list K) : list K :=
-  match l with
-  | [] => []
-  | x :: r => if existsb (eqb x) seen then dedup_by eqb seen r else x :: dedup_by eqb (x :: seen) r
-  end.
-
 (* eval_monad_range *)
 Definition m_range (a0 : val) : res :=
   let a := match a0 with VC c => VS [c] | VY s => VS s | _ => a0 end in   (* KGChar, KGSym are str *)
   match a with
-  | VS s => Ok (VS (dedup_sorted Z.eqb (map fst (sort_by Z.leb (with_index s)))))
+  | VS s => Ok (VS (dedup_by Z.eqb [] s))      (* ''.join(dict.fromkeys(a)) *)
   | VL l => if canonical a then Ok (norm (VL (dedup_by val_same [] l))) else Unmod
   | _ => Ok a
   end.
